@@ -507,12 +507,27 @@ def minkowski_rules(db, chk, cfg, rule="MINK"):
                       "orientation cancel under NonZero filling", f.where, cfg=cfg)
     # (e) quad corners: (G,H) (I,H) (I,J) (G,J) in cyclic order (any rotation, either direction: orientation is normalised afterwards)
     corners = []
+    # rows of the sum table held in reference locals (`const Path64& prev = tmp[g];`) stand for what they refer to
+    rowrefs = {}
+    for y in walk(f.body):
+        if y.get("kind") == "VarDecl" and "&" in (qt(y) or ""):
+            init = [c0 for c0 in kids(y) if isinstance(c0, dict) and c0.get("kind")]
+            if init:
+                t0 = canon(init[-1]).replace("(", "").replace(")", "")
+                m0 = re.match(r"^tmp\[(\w+)\]$", t0)
+                if m0:
+                    rowrefs[y.get("name")] = m0.group(1)
     for y in walk(f.body):
         if y.get("kind") == "CXXMemberCallExpr" and db.callee(y)[0] in ("emplace_back", "push_back") and canon(db.member_base(y)) != "result" \
                 and canon(db.member_base(y)) != "tmp":
-            m = re.match(r"^tmp\[\(?(\w+)\)?\]\[\(?(\w+)\)?\]$", canon(db.call_args(y)[0]).strip("()").replace("(", "").replace(")", ""))
+            t0 = canon(db.call_args(y)[0]).replace("(", "").replace(")", "")
+            m = re.match(r"^tmp\[(\w+)\]\[(\w+)\]$", t0)
             if m:
                 corners.append((m.group(1), m.group(2)))
+            else:
+                m = re.match(r"^(\w+)\[(\w+)\]$", t0)
+                if m and m.group(1) in rowrefs:
+                    corners.append((rowrefs[m.group(1)], m.group(2)))
     ok = False
     if roles is not None:
         I, J, G, H = roles[:4]
